@@ -267,14 +267,14 @@ func testContainer() container.Container {
 // ---- case -------------------------------------------------------------------
 
 type repCase struct {
-	Cnr          int
-	CnrKnown     bool
-	Sender       int // node index 1..4
+	Cnr      int
+	CnrKnown bool
+	Sender   int // node index 1..4
 	// Twin: the request is sent (and correctly signed) by the holder of the
 	// NEGATED private key of node Sender: a different key pair whose compressed
 	// public key differs from the member's only in the parity byte. It is not a
 	// container member.
-	Twin bool
+	Twin         bool
 	SenderCur    bool
 	SenderPrev   bool
 	LocalCur     bool
